@@ -284,7 +284,7 @@ def signal_sets(nvars, tier):
             for vx in itertools.product(F.V2, repeat=len(tx)):
                 for vy in itertools.product(F.V2, repeat=len(ty)):
                     sets.append({'x': tuple(zip(tx, vx)), 'y': tuple(zip(ty, vy))})
-            out += sets[37::128] if quick else sets[5::16]
+            out += sets[37::128] if quick else sets[5::32]
     if quick:
         out = out[:2] + out[3:]     # four of the five time-set combinations (the one that starts at t0 = 1 is kept)
     return out
